@@ -88,3 +88,12 @@ claim("C08", "other", "in-block pairing of departures with callback/size/count e
       "Does NOT decide which entry is evicted (needs a correct heap - C05/F1 - and a history argument) nor agreement with a reference LRU cache.",
       BASE_NOTE + " Assumes the size function is non-negative.",
       "DESIGN.md section 3, C08")
+claim("C15", "other", "constant-set extraction by value; exhaustive exploration of quote's CFG as a boolean program with an output typestate; pool-discipline path rules",
+      "Decides: the set of bytes that force quoting (read by value from the constants quotable uses) contains every POSIX-special byte and every byte the package's own tokenizer "
+      "treats specially; quotable sets its two bits exactly on membership and scans the whole string; an exhaustive exploration of quote's control-flow graph over the "
+      "predicates {inq, hasQ, hasOther, 'ch is a quote'} x output typestate {outside, inside quotes, after backslash} shows that every input byte is written exactly once and in "
+      "order, an input quote only ever follows a backslash outside quotes, a possibly-special byte is only written inside quotes, and the function returns outside quotes; "
+      "pooled buffers are reset before use, returned on every exit and never escape; Split's results come only from the scanner. "
+      "Does NOT decide Split(Join(ss)) == ss as an input/output fact, nor what a real shell does with the output.",
+      BASE_NOTE + " POSIX XCU 2.2's list of special characters is the oracle for the set rule.",
+      "DESIGN.md section 3, C15")
